@@ -353,6 +353,13 @@ func runHelpText(c *Ctx) {
 			for j := range vars {
 				if i != j {
 					out = append(out, []hItem{vars[i], vars[j]})
+					if c.Thorough() {
+						for k := range vars {
+							if k != i && k != j && k > j {
+								out = append(out, []hItem{vars[i], vars[j], vars[k]})
+							}
+						}
+					}
 				}
 			}
 		}
